@@ -4,7 +4,7 @@ import gen_c07
 
 K = dict(KEY_NEW=1, KEY_FREE=2, SUBMIT=3, CQE_MORE=4, CQE_FINAL=5, SET_RESULT=6, TAKE=41, RESET=42, DEALLOC=43,
          REL_DEALLOC=44, GUARD=45, GUARD_LEAK=46, POP=47, POP_EMPTY=48, GUARD_DROP=49, NEW_RING=50,
-         NEW_FALLBACK=51, RELEASED=52, RING_ADD=53, U_GOT=101, U_DROP=102, U_WRAP=107)
+         NEW_FALLBACK=51, RELEASED=52, RING_ADD=53, ENTER=27, ENTER_RETURN=28, U_GOT=101, U_DROP=102, U_WRAP=107)
 E_BUSY, E_UNSUPPORTED, E_INVALID = 1, 2, 3
 
 
@@ -80,11 +80,17 @@ def oracle(case, out):
         return "handles still live at the end of the program: %s" % sorted(live)
     # --- the raw ownership log: every buffer is in exactly one place
     state = {}         # id -> "in" | "out" | "dead"
-    selected = set()
+    selected = set()   # selected by the kernel, completion queued (still in the slot table)
+    kavail = None      # io_uring: what the ring held when the kernel last ran, minus what it selected since
     released = False
     created = False
-    prev = None
+    off_thread = None
+
+    def avail():
+        return set(i for i, st in state.items() if st == "in" and i not in selected)
+
     for idx, (k, a, b) in enumerate(evs):
+        nxt = evs[idx + 1] if idx + 1 < len(evs) else (0, 0, 0)
         if k in (K["NEW_RING"], K["NEW_FALLBACK"]):
             if created:
                 return "event %d: a second pool was created" % idx
@@ -92,6 +98,8 @@ def oracle(case, out):
             if a != nbuf:
                 return "pool created with %d buffers, expected %d" % (a, nbuf)
             state = {i: "in" for i in range(a)}
+        elif k == K["ENTER_RETURN"]:
+            kavail = avail()
         elif k == K["TAKE"]:
             if state.get(a) != "in":
                 return "event %d: buffer %d taken while %s" % (idx, a, state.get(a))
@@ -102,10 +110,15 @@ def oracle(case, out):
                 return "event %d: buffer %d returned to the pool while %s (double return)" % (idx, a, state.get(a))
             if released:
                 return "event %d: buffer %d returned to a released pool" % (idx, a)
+            if b == 1:
+                off_thread = "event %d: buffer %d returned to the pool by another thread" % (idx, a)
             state[a] = "in"
         elif k == K["DEALLOC"]:
             if state.get(a) != "out":
                 return "event %d: buffer %d deallocated by a holder while %s" % (idx, a, state.get(a))
+            if b == 1:
+                off_thread = ("event %d: the handle of buffer %d (BufferRef, holds an Rc/Weak of the pool) was "
+                              "dropped on a blocking-pool thread" % (idx, a))
             state[a] = "dead"
         elif k == K["REL_DEALLOC"]:
             if state.get(a) != "in" or not released:
@@ -113,20 +126,27 @@ def oracle(case, out):
             state[a] = "dead"
         elif k == K["RELEASED"]:
             released = True
-        elif k == K["GUARD"]:
-            if state.get(a) != "in" or a in selected:
-                return "event %d: the kernel selected buffer %d while %s" % (idx, a, state.get(a))
-            selected.add(a)
-        elif k in (K["POP_EMPTY"],) or (k == K["SET_RESULT"] and b == 2 and drv == 0):
-            avail = [i for i, s in state.items() if s == "in" and i not in selected]
-            if avail and not released:
-                return "event %d: exhaustion reported while buffers %s were available" % (idx, avail)
-        prev = k
+        elif k == K["GUARD"] or (k == K["SET_RESULT"] and drv == 0 and nxt[0] == K["TAKE"]):
+            bid = a if k == K["GUARD"] else nxt[1]
+            if state.get(bid) != "in" or bid in selected:
+                return "event %d: the kernel selected buffer %d while %s" % (idx, bid, state.get(bid))
+            if kavail is not None and bid not in kavail:
+                return "event %d: the kernel selected buffer %d, which was not in the ring when it ran" % (idx, bid)
+            if kavail is not None:
+                kavail.discard(bid)
+            if k == K["GUARD"]:
+                selected.add(bid)
+        elif k == K["POP_EMPTY"]:
+            if avail() and not released:
+                return "event %d: exhaustion reported while buffers %s were available" % (idx, sorted(avail()))
+        elif k == K["SET_RESULT"] and b == 2 and drv == 0:
+            if kavail and not released:
+                return "event %d: ENOBUFS while buffers %s were in the ring" % (idx, sorted(kavail))
     if created:
-        bad = {i: s for i, s in state.items() if s != "dead"}
+        bad = {i: st for i, st in state.items() if st != "dead"}
         if bad:
             return "buffers never deallocated although the pool and every handle are gone: %s" % bad
-    return None
+    return off_thread
 
 
 class C07(diffcheck.DiffProp):
@@ -193,6 +213,8 @@ class C07(diffcheck.DiffProp):
         return oracle(case, out)
 
     def known(self, case, out, what):
+        if "dropped on a blocking-pool thread" in what or "by another thread" in what:
+            return "C07-bufferref-dropped-off-thread"
         return None
 
 
